@@ -7,12 +7,12 @@ from typing import Any
 
 from harness.common import Ck
 from harness.c07_util import World
-from translate import c07_index_sites, c07_index_shapes
+from translate import c07_index_sites, c07_index_shapes, c07_index_del, c07_index_listops
 
 MANIFEST = dict(
-    technique='Rocq proof (index invariant preserved by every operation incl. defaultdict reads, by induction over operation sequences on several maps; search() sound and complete both for the hand model and for every program shape that passes the generated obligations; make_unique loop termination by pigeonhole; CopySet iteration total and exception-free under arbitrary mutation; worldspawn pinned) + two fail-closed ast translators (census of writers/escapes/key sources; shapes of Entity.__setitem__, VMF.search, CopySet.__iter__) + vm_compute correspondences (operation sequences, search, search as written, iteration traces) + scan oracle on real VMF objects',
-    text='Theorems in Props/C07.v about SM/IndexModel.v (entity list, spawn, per-entity key lists with case-insensitive first-spelling-wins lookup, by_class/by_target as maps from folded key to sets of entities, possibly holding empty sets left by defaultdict reads): the invariant "every index entry equals the scan of entities+worldspawn under the current folded classname / targetname (\'\' -> None), the worldspawn has class worldspawn and is listed under it" holds for VMF(), for VMF.parse of any tree, is preserved by every operation (create_ent/add_ent/add_ents/remove_ent, Entity(), copy between maps, []=, del (single and tuple), pop, popitem, setdefault, update, clear, make_unique, export, reading by_class[k]/by_target[k]) whatever its arguments and whether or not it raises, hence after every finite history over any number of maps; search() returns exactly the matching entities. Round 2: the decisive code is modelled from its source shape, regenerated on every run: (1) the lookup loop of Entity.__setitem__ (which key spelling fetches the previous value and stores the new one, before/after the store) - every shape passing five named obligations equals the hand model for all inputs, the caller-spelling and read-after-store shapes are refuted; (2) VMF.search as a program over real defaultdict semantics (reads insert empty sets, `in` sees them) - every program passing the obligations returns exactly the specified entities and leaves a state no reader can distinguish, the if/elif shape is refuted; (3) CopySet.__iter__ as a generator program - no RuntimeError for any loop body, exactly |snapshot|+|late| yields, each element once, invariant kept when the body applies arbitrary operations; plain set iteration refuted; (4) the make_unique while-True loop ends within the model\'s fuel (n+1 candidates, n keys; candidates distinct after folding) and returns the first unused name; make_unique never raises. Tied to vmf.py on every run by the fail-closed census (writers of Entity._keys, escapes of the dict, writers of VMF.entities/VMF.spawn, every index update: key folded, value read from the filed entity\'s own classname/targetname, adds guarded by membership), the shape obligations, and correspondences comparing, after every step, error code, entity list, key lists and both indexes of the model with real VMF objects, search results (hand model and program as written) and the yield traces of index iterations with mutating bodies; a scan oracle checks the property directly on the implementation after every step.',
-    note='Trusted: Coq kernel + vm_compute, translate/c07_index_sites.py, translate/c07_index_shapes.py, the hand model SM/IndexModel.v (tied by the correspondences and, for __setitem__/search/CopySet.__iter__, by translator-generated shapes proved equal to it), CPython. No axioms. str.casefold is a parameter of the model; theorems assume it fixes the empty string and the literals classname/targetname/worldspawn, is idempotent (search), and distributes over an appended decimal number (make_unique termination) - all proved for ASCII lower-casing, true of str.casefold. Not modelled: nodeid processing (C08), conversion of non-string values (conv_kv), Entity.keys setter (clear+update), laziness/order/multiplicity of search() results, the empty sets that make_unique and iteration leave in the implementation\'s defaultdicts (shown irrelevant: ix_equiv). Non-ASCII names only in the oracle stream. Out of domain: add_ent of the worldspawn object or of an entity created for another VMF, writing through the dict returned by the deprecated Entity.keys property.',
+    technique='Rocq proof (index invariant preserved by every operation incl. defaultdict reads, by induction over operation sequences on several maps; every operation respects ix_equiv; search() sound and complete; make_unique loop termination by pigeonhole; CopySet iteration total and exception-free under arbitrary mutation; worldspawn pinned; every index-maintaining function of vmf.py read off the source as a program/shape and proved equal to the model operation whenever its named path obligations hold) + four fail-closed ast translators (census of writers/escapes/key sources on a normalised function; shapes/programs of Entity.__setitem__ (lookup loop and maintenance chain), Entity.__delitem__, Entity.clear, VMF.add_ent, VMF.add_ents, VMF.remove_ent, _remove_copyset, VMF.search, CopySet.__iter__) + vm_compute correspondences (operation sequences, search, search as written, iteration traces) + scan oracle on real VMF objects',
+    text='Theorems in Props/C07.v about SM/IndexModel.v (entity list, spawn, per-entity key lists with case-insensitive first-spelling-wins lookup, by_class/by_target as maps from folded key to sets of entities, possibly holding empty sets left by defaultdict reads): the invariant "every index entry equals the scan of entities+worldspawn under the current folded classname / targetname (\'\' -> None), the worldspawn has class worldspawn and is listed under it" holds for VMF(), for VMF.parse of any tree, is preserved by every operation (create_ent/add_ent/add_ents/remove_ent, Entity(), copy between maps, []=, del (single and tuple), pop, popitem, setdefault, update, clear, make_unique, export, reading by_class[k]/by_target[k]) whatever its arguments and whether or not it raises, hence after every finite history over any number of maps; search() returns exactly the matching entities; states that differ only in empty sets held by the index maps stay equivalent under every operation (round 3). The decisive code is modelled from its source, regenerated on every run, and for each function a theorem says that every generated object passing its named obligations is the model operation for all inputs: the lookup loop of Entity.__setitem__ (round 2) and, round 3, its whole maintenance chain incl. the error path of the worldspawn guard with its recursive store (set_item); Entity.__delitem__ = pre-loop program + pop loop shape (del_item); Entity.clear as a step list (clear); VMF.add_ents over one-shot and re-iterable arguments (add_ents); VMF.add_ent and VMF.remove_ent as programs whose conditions are evaluated where they stand (add_ent, remove_ent); _remove_copyset as a shape (ix_remove; leaving empty sets is reader-equal); VMF.search as a program over real defaultdict semantics and CopySet.__iter__ as a generator program (round 2). Faulty shapes are refuted by computed witnesses on reachable states (caller-spelling read, read after store, if/elif search, plain set iteration, direct revert in the worldspawn guard, add_ents iterating twice, set.remove / inverted emptiness test / missing None guard in _remove_copyset, unguarded by_target[None] addition and pop by the caller\'s spelling in __delitem__, membership test before the list removal and and-guard in remove_ent, clear forgetting the targetname). make_unique: the while-True loop ends within n+1 candidates and never raises. Tied to vmf.py on every run by the fail-closed census (writers of Entity._keys, escapes of the dict, writers of VMF.entities/VMF.spawn, every index update: key folded, value read from the filed entity, adds guarded; classified on a normalised function), 34 shape/path obligations, and correspondences comparing, after every step, error code, entity list, key lists and both indexes of the model with real VMF objects (add_ents called with generator/iterator/map/list/tuple), search results and the yield traces of index iterations with mutating bodies; a scan oracle checks the property directly on the implementation after every step.',
+    note='Trusted: Coq kernel + vm_compute, translate/c07_index_sites.py, c07_index_shapes.py, c07_index_del.py, c07_index_listops.py, the hand model SM/IndexModel.v (tied by the correspondences and, for __setitem__/__delitem__/clear/add_ent/add_ents/remove_ent/_remove_copyset/search/CopySet.__iter__, by translator-generated programs proved equal to it), CPython. No axioms. str.casefold is a parameter of the model; theorems assume it fixes the empty string and the literals classname/targetname/worldspawn, is idempotent (search), distributes over an appended decimal number (make_unique termination) and does not map nodeid to classname/targetname (clear) - all proved for ASCII lower-casing, true of str.casefold. Hand-modelled without a generated program (census + correspondence only): VMF.__init__, VMF.parse/replace_spawn, Entity.__init__/copy, make_unique, the MutableMapping mixins pop/popitem/setdefault/update. Not modelled: nodeid processing (C08), conversion of non-string values (conv_kv), Entity.keys setter (clear+update), laziness/order/multiplicity of search() results, the empty sets that make_unique and iteration leave in the implementation\'s defaultdicts (shown irrelevant for every later operation: c07_run_respects_ix_equiv). Non-ASCII names only in the oracle stream. Out of domain: add_ent of the worldspawn object or of an entity created for another VMF, writing through the dict returned by the deprecated Entity.keys property.',
 )
 
 NAMES = ['a', 'A', 'Ab', 'aB', '', 'a1', 'worldspawn']
@@ -22,9 +22,12 @@ TN_KEYS = ['targetname', 'targetname', 'TargetName', 'TARGETNAME']
 OTHER_KEYS = ['origin', 'Origin', 'x']
 QUERIES = ['a', 'A', 'ab', 'AB', 'a*', 'A*', '*', '', 'a1', 'worldspawn', 'WORLDSPAWN', 'ab*', 'info_null', 'b']
 QUERIES_SH = ['a', 'A*', 'ab', 'worldspawn', '']
+ADD_FORMS = ['gen', 'iter', 'map', 'list', 'tuple']      # how the iterable is handed to VMF.add_ents
 MAX_OBJS = 6
-MODEL_DIGESTS: dict = {'CopySet.__iter__': '18a885efeefc', '_remove_copyset': '590e345663d7', 'VMF.search': '8cbe23d1283f',
-                       'Entity.make_unique': '11a000401c4a'}
+# functions that are modelled by hand only (no generated shape): a change escalates the correspondence budget.
+# VMF.search, CopySet.__iter__, _remove_copyset, Entity.__setitem__ and VMF.add_ents are read off the source as shapes
+# with obligations on every run, so a rewrite of those needs no escalation.
+MODEL_DIGESTS: dict = {'Entity.make_unique': '11a000401c4a'}
 MAX_MAPS = 3
 
 
@@ -108,7 +111,7 @@ def gen_ops(rng: random.Random, n: int, names=NAMES, allow_iter: bool = True) ->
                 ops.append(('add', m, e))
         elif r < 0.34:
             es = [e for e in (pick_ent(m, allow_spawn=False) for _ in range(rng.randint(0, 3))) if e is not None]
-            ops.append(('adds', m, es))
+            ops.append(('adds', m, es, rng.choice(ADD_FORMS)))
         elif r < 0.43:
             e = pick_ent(m)
             if e is not None:
@@ -275,6 +278,19 @@ CORPUS = [
      ('iter', 0, 'target', 'a', ('uniq', 'a')), ('iter', 0, 'class', 'a', ('set', 'classname', 'A')),
      ('iter', 0, 'class', 'a', ('clear',))],
     [('create', 0, 'ab', []), ('probe', 0, 'target', 'Ab'), ('probe', 0, 'class', 'AB'), ('probe', 0, 'target', None)],
+    # round 3: the error path of the worldspawn guard (a rejected re-class must leave the worldspawn indexed), on a
+    # fresh and on a parsed map, through [] / update / another spelling; add_ents with every form of iterable
+    [('set', 0, 0, 'classname', 'a')],
+    [('update', 0, 0, [('targetname', 'Ab'), ('classname', 'Ab')]), ('set', 0, 0, 'targetname', '')],
+    [('set', 0, 0, 'ClassName', 'a'), ('set', 0, 0, 'classname', 'WorldSpawn'), ('probe', 0, 'class', 'worldspawn')],
+    [('parse', [('classname', 'worldspawn'), ('targetname', 'a')], [([('classname', 'a')], False)]),
+     ('set', 2, 1, 'classname', 'a'), ('rem', 2, 2, True)],
+    [('new', 0, [('classname', 'a'), ('targetname', 'Ab')]), ('new', 0, [('classname', 'A')]), ('adds', 0, [1, 2], 'gen'),
+     ('set', 0, 1, 'targetname', 'a1')],
+    [('new', 0, [('classname', 'a')]), ('adds', 0, [1], 'iter'), ('rem', 0, 1, False)],
+    [('new', 0, [('classname', 'a')]), ('adds', 0, [1], 'map')],
+    [('new', 0, [('classname', 'a')]), ('new', 0, [('classname', 'Ab')]), ('adds', 0, [1, 2, 1], 'list'), ('rem', 0, 1, True)],
+    [('new', 0, [('classname', 'a')]), ('adds', 0, [1], 'tuple'), ('adds', 0, [], 'gen')],
 ]
 
 
@@ -291,6 +307,8 @@ def search(ck: Ck) -> None:
         ck.hist('oracle_len', len(ops) // 10 * 10)
         for op in ops:
             ck.hist('oracle_ops', op[0])
+            if op[0] == 'adds':
+                ck.hist('add_ents_iterable_form', op[3] if len(op) > 3 else 'gen')
         kinds = {op[0] for op in ops}
         if kinds & {'create', 'add', 'adds', 'parse'} and kinds & {'set', 'del', 'dels', 'pop', 'popitem', 'update', 'clear', 'uniq', 'rem', 'iter'}:
             ck.seen(('oracle', repr(ops)))
@@ -486,7 +504,7 @@ Definition sq2 (s : list nat) (q : str) (st : mstate) : bool :=
 
 def corr(ck: Ck, escalate: bool = False, shapes: bool = False) -> None:
     # quick tier with a broken tie: a larger random budget, but the exhaustive short histories stay in thorough
-    n = 2500 if ck.thorough else (600 if (escalate or ck.tie_broken) else 240)
+    n = 2500 if ck.thorough else (600 if (escalate or ck.tie_broken) else 200)
     cases = []
     RAISED.clear()
     seqs: list = list(CORPUS)
@@ -516,7 +534,7 @@ def corr(ck: Ck, escalate: bool = False, shapes: bool = False) -> None:
     bad_q: list[tuple[int, Any]] = []
     bad_i: list[tuple[int, Any]] = []
     bad_q2: list[tuple[int, Any]] = []
-    B = min(120, max(40, -(-len(cases) // 6)))     # quick: 6 parallel batches
+    B = min(120, max(34, -(-len(cases) // 6)))     # quick: 6 parallel batches
     from concurrent.futures import ThreadPoolExecutor
     from harness.common import parse_coq_nested
 
@@ -639,7 +657,7 @@ def exhaustive_short():
 
 
 # ------------------------------------------------------------------------------------------------ source shapes
-SHAPE_IMPORTS = ['SV.SM.IndexModel', 'SV.SM.IndexShapes', 'SV.Gen.IndexShapes_gen']
+SHAPE_IMPORTS = ['SV.SM.IndexModel', 'SV.SM.IndexShapes', 'SV.SM.IndexMaint', 'SV.SM.IndexRemove', 'SV.Gen.IndexShapes_gen']
 SHAPE_OBLIGATIONS = {
     # Entity.__setitem__ (theorem c07_setitem_as_written: all five => the code is the model's set_item)
     'setitem_lookup_is_case_insensitive': 'ss_match_ok gen_setitem_shape',
@@ -654,21 +672,93 @@ SHAPE_OBLIGATIONS = {
     'search_star_branch_yields_exactly_the_prefix_scan': 'star_ok (sh_star gen_search_shape)',
     'search_exact_branch_yields_name_and_class_matches': 'exact_ok (sh_exact gen_search_shape)',
     'search_scans_a_snapshot_of_the_items': 'gen_search_scans_snapshot',
+    # Entity.__setitem__, the maintenance part after the lookup loop (theorem c07_setitem_maintenance_as_written)
+    'setitem_classname_branch_rekeys_by_class': 'maint_classname_ok gen_setitem_maint',
+    'setitem_worldspawn_guard_error_path_restores_the_index': 'maint_guard_error_ok gen_setitem_maint',
+    'setitem_targetname_branch_rekeys_by_target': 'maint_targetname_ok gen_setitem_maint',
+    'setitem_other_keys_leave_the_indexes_alone': 'maint_other_ok gen_setitem_maint',
+    # VMF.add_ents over an iterable argument (theorem c07_add_ents_as_written)
+    'add_ents_lists_and_indexes_each_entity_once_for_a_list_argument': 'ae_ok_reiterable gen_add_ents',
+    'add_ents_lists_and_indexes_each_entity_once_for_a_one_shot_iterable': 'ae_ok_oneshot gen_add_ents',
+    # _remove_copyset (theorem c07_remove_copyset_as_written: all four => the helper is the model's ix_remove)
+    'remove_copyset_finds_the_set_without_raising_and_skips_an_absent_key': 'rc_lookup_ok gen_remove_copyset',
+    'remove_copyset_discards_the_entity': 'rc_discards gen_remove_copyset',
+    'remove_copyset_keeps_the_other_members': 'rc_keeps_others gen_remove_copyset',
+    'remove_copyset_drops_the_set_that_became_empty': 'rc_drops_empty gen_remove_copyset',
     # CopySet.__iter__ (theorem c07_copyset_iteration_total)
     'copyset_iter_never_iterates_the_live_set': 'iprog_never_live gen_copyset_iter',
     'copyset_iter_is_snapshot_then_late_additions': 'iprog_is_today gen_copyset_iter',
 }
 
 
-def shape_obligations(ck: Ck) -> None:
-    res = ck.instance_obligations(SHAPE_IMPORTS, SHAPE_OBLIGATIONS, name='shapes')
-    for name, ok in res.items():
-        if not ok:
-            ck.tie_broken.append(f'source shape obligation {name} (Gen/IndexShapes_gen.v)')
-    ck.extra['source_shapes'] = ck.extra.get('translated', {}).get('IndexShapes_gen')
+# Entity.__delitem__ (Gen/IndexDel_gen.v, theorem c07_delitem_as_written) and VMF.add_ent / VMF.remove_ent
+# (Gen/IndexListOps_gen.v, theorems c07_add_ent_as_written / c07_remove_ent_as_written)
+DEL_IMPORTS = ['SV.SM.IndexModel', 'SV.SM.IndexShapes', 'SV.SM.IndexMaint', 'SV.SM.IndexDel', 'SV.SM.IndexClear', 'SV.Gen.IndexDel_gen']
+DEL_OBLIGATIONS = {
+    'delitem_targetname_branch_rekeys_by_target_under_the_membership_test': 'del_targetname_ok gen_delitem_maint',
+    'delitem_refuses_the_classname': 'del_classname_refused gen_delitem_maint',
+    'delitem_other_keys_leave_the_indexes_alone': 'del_other_ok gen_delitem_maint',
+    'delitem_lookup_is_case_insensitive': 'del_loop_case_insensitive gen_delitem_loop',
+    'delitem_pops_the_stored_spelling': 'del_loop_pops_stored gen_delitem_loop',
+    # Entity.clear (theorem c07_clear_as_written)
+    'clear_reindexes_through_setitem_and_delitem_before_emptying_the_keys': 'clear_reindexes_before_emptying gen_clear',
+    'clear_empties_the_keys_once_and_stores_the_classname_back': 'clear_keeps_the_classname gen_clear',
+}
+LISTOPS_IMPORTS = ['SV.SM.IndexModel', 'SV.SM.IndexListOps', 'SV.Gen.IndexListOps_gen']
+LISTOPS_OBLIGATIONS = {
+    'remove_ent_leaves_the_worldspawn_indexed': 'remove_worldspawn_stays_indexed gen_remove_ent',
+    'remove_ent_leaves_an_entity_that_is_still_listed_indexed': 'remove_still_listed_stays_indexed gen_remove_ent',
+    'remove_ent_unlists_and_unindexes_any_other_entity': 'remove_unlists_and_unindexes gen_remove_ent',
+    'add_ent_lists_and_indexes_the_entity_exactly_once': 'add_ok gen_add_ent',
+}
+
+
+def shape_obligations(ck: Ck, ok_s: bool = True, ok_d: bool = False, ok_l: bool = False) -> None:
+    groups = [g for g in ((ok_s, SHAPE_IMPORTS, SHAPE_OBLIGATIONS, 'IndexShapes_gen'),
+                          (ok_d, DEL_IMPORTS, DEL_OBLIGATIONS, 'IndexDel_gen'),
+                          (ok_l, LISTOPS_IMPORTS, LISTOPS_OBLIGATIONS, 'IndexListOps_gen')) if g[0]]
+    # one coqc run for all generated files that exist (their definitions have distinct names)
+    imports: list[str] = []
+    obs: dict[str, str] = {}
+    where: dict[str, str] = {}
+    for _, imp, ob, gen in groups:
+        imports += [i for i in imp if i not in imports]
+        obs.update(ob)
+        where.update({k: gen for k in ob})
+    res = ck.instance_obligations(imports, obs, name='shapes')
+    for oname, good in res.items():
+        if not good:
+            ck.tie_broken.append(f'source shape obligation {oname} (Gen/{where.get(oname, "?")}.v)')
+    ck.extra['source_shapes'] = {g: ck.extra.get('translated', {}).get(g) for g in ('IndexShapes_gen', 'IndexDel_gen', 'IndexListOps_gen')}
 
 
 # ------------------------------------------------------------------------------------------------ main
+def _assumptions_in_background(ck: Ck, props_file: str):
+    """Start the coqc run that ck.theorems(props_file) would make, in a thread; the returned function waits for it and
+    calls ck.theorems with that run's result (ck.theorems itself is unchanged: it parses the output, records the axioms
+    and the theorem obligations).  If the harness ever builds a different scratch file, it simply runs its own."""
+    import re
+    from concurrent.futures import ThreadPoolExecutor
+    from harness.common import ROCQ
+    names = re.findall(r'^\s*(?:Theorem|Lemma|Corollary)\s+([A-Za-z0-9_\']+)', (ROCQ / props_file).read_text(), re.M)
+    mod = 'SV.' + props_file[:-2].replace('/', '.')
+    body0 = f'Require Import {mod}.\n' + ''.join(f'Print Assumptions {n}.\n' for n in names)
+    pool = ThreadPoolExecutor(max_workers=1)
+    orig = ck.coq_scratch
+    fut = pool.submit(orig, body0, 'assumptions')
+
+    def finish() -> None:
+        def cached(body: str, name: str = 'scratch', timeout: int = 600):
+            return fut.result() if body == body0 else orig(body, name, timeout)
+        ck.coq_scratch = cached          # type: ignore[method-assign]
+        try:
+            ck.theorems(props_file)
+        finally:
+            del ck.coq_scratch
+            pool.shutdown()
+    return finish
+
+
 def run(ck: Ck) -> None:
     import time
     t0 = time.time()
@@ -680,14 +770,14 @@ def run(ck: Ck) -> None:
         t0 = time.time()
     ck.rule = ('histories over 2-3 real VMF objects with at most 6 entities each; names drawn from '
                "{a, A, Ab, aB, '', a1, worldspawn} (oracle stream also ß/SS/ss/İ), keys from classname/targetname in "
-               'three spellings plus two other keys; operations create/new/copy/add/adds/remove/set/del/tuple-del/pop/'
+               'three spellings plus two other keys; operations create/new/copy/add/adds (iterable passed as generator, iterator, map object, list or tuple)/remove/set/del/tuple-del/pop/'
                'popitem/setdefault/update/clear/make_unique/export/parse/new map/defaultdict read of an index (folded or '
                'un-folded key)/iterate-while-mutating (loop bodies: set/del/remove/pop/clear/make_unique/create a like-named '
                'entity = late addition); a history is non-trivial when it adds an entity to a map and afterwards mutates keys '
                'or removes; distinct by full history')
     ck.trusted.append('hand-written model SM/IndexModel.v (tied by the operation-sequence correspondence and the census translator on every run; '
                       'Entity.__setitem__ lookup, VMF.search and CopySet.__iter__ additionally by translator-generated shapes proved equal to it)')
-    ck.trusted.append('translate/c07_index_shapes.py (fail-closed symbolic walk of Entity.__setitem__, VMF.search, CopySet.__iter__)')
+    ck.trusted.append('translate/c07_index_shapes.py, c07_index_del.py, c07_index_listops.py (fail-closed symbolic walks of Entity.__setitem__ (lookup loop and index maintenance), Entity.__delitem__, VMF.add_ent, VMF.add_ents, VMF.remove_ent, VMF.search, CopySet.__iter__, _remove_copyset)')
     ck.assumptions += [
         'str.casefold leaves the empty string and the literals classname/targetname/worldspawn unchanged (hypotheses of every theorem; true of CPython)',
         'operations refer to Entity objects created with the same VMF as parent; vmf.add_ent(vmf.spawn) is outside the domain',
@@ -698,13 +788,18 @@ def run(ck: Ck) -> None:
     ok_t = ck.translate('IndexSites_gen', c07_index_sites.translate)
     side = ck.extra.get('translated', {}).get('IndexSites_gen', {})
     ok_s = ck.translate('IndexShapes_gen', c07_index_shapes.translate)
-    built = ck.build(['Props/C07.vo'] + (['SM/IndexCensus.vo'] if ok_t else []) + (['Gen/IndexShapes_gen.vo'] if ok_s else []))
+    ok_d = ck.translate('IndexDel_gen', c07_index_del.translate)
+    ok_l = ck.translate('IndexListOps_gen', c07_index_listops.translate)
+    built = ck.build(['Props/C07.vo'] + (['SM/IndexCensus.vo'] if ok_t else []) + (['Gen/IndexShapes_gen.vo'] if ok_s else [])
+                     + (['Gen/IndexDel_gen.vo'] if ok_d else []) + (['Gen/IndexListOps_gen.vo'] if ok_l else []))
     lap('translate+build')
     if built:
-        ck.theorems('Props/C07.v')
-        lap('print_assumptions')
-        if ok_s:
-            shape_obligations(ck)
+        # Print Assumptions of every theorem of Props/C07.v is one single-threaded coqc run of about 20 s: it runs in
+        # the background while the obligations and correspondences below are evaluated; ck.theorems() then does its
+        # usual bookkeeping on that output (same scratch file text, see _assumptions_in_background)
+        finish_theorems = _assumptions_in_background(ck, 'Props/C07.v')
+        if ok_s or ok_d or ok_l:
+            shape_obligations(ck, ok_s, ok_d, ok_l)
             lap('shape_obligations')
         if ok_t:
             obs = {
@@ -732,18 +827,22 @@ def run(ck: Ck) -> None:
                 if not ok:
                     ck.tie_broken.append(f'census obligation {name} (Gen/IndexSites_gen.v)')
         # a changed hand-modelled function escalates the correspondence budget (never an alarm by itself)
-        if side.get('digests') and side['digests'] != MODEL_DIGESTS:
-            ck.notes.append(f'hand-modelled functions changed since the model was written ({side["digests"]}): thorough correspondence budget')
+        hand = {k: v for k, v in side.get('digests', {}).items() if k in MODEL_DIGESTS}
+        if side.get('digests') and (hand != MODEL_DIGESTS or not (ok_s and ok_d and ok_l)):
+            ck.notes.append(f'hand-modelled functions changed since the model was written ({hand}): thorough correspondence budget')
             ck.extra['digest_escalation'] = True
         lap('census_obligations')
         corr(ck, escalate=bool(ck.extra.get('digest_escalation')), shapes=ok_s)
         lap('correspondence')
+        finish_theorems()
+        lap('print_assumptions(wait)')
     search(ck)
     lap('oracle_search')
     keys = {v['key'] for v in ck.violations}
     if keys:
         ck.explain('correspondence:')
         ck.explain('instance:')
+        ck.explain('translate:')
 
 
 def _tuplify(x):
